@@ -22,11 +22,13 @@ theorem callFn_enum_value (env : Env) (cx : Cx) (l : List Ref) :
     callFn (N := N) env cx "enum-value" [.ns l] =
       .ok (.num (match Yang.enumValue env.facts env.doc l with | some i => XNum.ofInt i | none => XNum.nan)) := by
   simp [callFn, callYang, pure, Except.pure]
+  rfl
 
 theorem callFn_re_match (env : Env) (cx : Cx) (a b : Value N) :
     callFn env cx "re-match" [a, b] =
       (match Yang.reMatch (a.toStr env) (b.toStr env) with | some r => .ok (.bool r) | none => .error .valid) := by
   simp [callFn, callYang, pure, Except.pure, throw, throwThe, MonadExceptOf.throw]
+  rfl
 
 theorem callFn_deref (env : Env) (cx : Cx) (l : List Ref) :
     callFn (N := N) env cx "deref" [.ns l] = derefFn env l := by
@@ -73,25 +75,28 @@ theorem enumValue_eq_some (f : Facts) (d : Doc) (l : List Ref) (v : Int) :
     Yang.enumValue f d l = some v ↔
       ∃ x rest e items, l = x :: rest ∧ d.elem? x = some e ∧ e.term = true ∧
         f.enums.lookup (d.spath x) = some items ∧ items.lookup e.value = some v := by
-  unfold Yang.enumValue
   cases l with
-  | nil => simp
+  | nil => simp [Yang.enumValue]
   | cons x rest =>
-    cases he : d.elem? x with
-    | none => simp [he]
-    | some e =>
-      cases ht : e.term with
-      | false => simp [he, ht]
-      | true =>
-        simp only [he, ht, if_true, List.cons.injEq, Option.some.injEq]
-        cases hl : f.enums.lookup (d.spath x) with
-        | none => simp [hl]
-        | some items =>
-          simp only [Option.bind_some]
-          constructor
-          · intro h; exact ⟨x, rest, e, items, ⟨rfl, rfl⟩, rfl, ht, hl, h⟩
-          · rintro ⟨x', rest', e', items', ⟨rfl, rfl⟩, rfl, _, hl', h⟩
-            rw [hl] at hl'; cases hl'; exact h
+    constructor
+    · intro h
+      simp only [Yang.enumValue] at h
+      cases he : d.elem? x with
+      | none => simp [he] at h
+      | some e =>
+        simp only [he] at h
+        cases ht : e.term with
+        | false => simp [ht] at h
+        | true =>
+          simp only [ht, if_true] at h
+          cases hl : f.enums.lookup (d.spath x) with
+          | none => simp [hl] at h
+          | some items =>
+            simp only [hl, Option.bind_some] at h
+            exact ⟨x, rest, e, items, rfl, he, ht, hl, h⟩
+    · rintro ⟨x', rest', e, items, hl0, he, ht, hl, h⟩
+      cases hl0
+      simp [Yang.enumValue, he, ht, hl, h]
 
 /-! ## deref -/
 theorem derefFn_leafref (env : Env) (x : Ref) (rest ts : List Ref) (h : env.leafrefTargets x = some ts) :
@@ -105,6 +110,7 @@ theorem compare_canon_single (env : Env) (hq : env.q.canonStr = true) (x : Ref) 
     compare (N := N) env .eq (.ns [x]) (.str s) = (env.strValue x == env.canonFor x s) := by
   simp [compare, hq, Value.toOpndZ, Comp.CZ.opComp, Comp.CZ.nsScalar, Comp.CZ.canonOpnd, Comp.C.itemCast, Comp.C.tyOf, Comp.C.cast,
     Comp.C.scalarComp, Comp.isEqNe, Comp.cmpStr]
+  by_cases h : env.strValue x = env.canonFor x s <;> simp [h]
 
 theorem compare_nocanon_single (env : Env) (hq : env.q.canonStr = false) (hb : env.q.nsBool = false) (x : Ref) (s : Bytes) :
     compare (N := N) env .eq (.ns [x]) (.str s) = (env.strValue x == s) := by
